@@ -10,31 +10,33 @@ CONSTANTS MaxSpecial,   \* special (non-plain) cells per enumerated table
 \* ---------------------------------------------------------------- tables
 SpecialKinds == {"pipe", "nl", "empty", "padded", "uni"}
 Pos(nr, nc) == (1..nr) \X (1..nc)
-\* assignments of special kinds to at most n positions: sets of <<r, c, kind>> with distinct positions
+\* assignments of special kinds to at most n positions: sequences of <<r, c, kind>> with
+\* distinct, increasing positions (descriptors are tuples: cheap to compare and fingerprint)
 Later(nr, nc, p) == {x \in Pos(nr, nc) : x[1] > p[1] \/ (x[1] = p[1] /\ x[2] > p[2])}
 Specials(nr, nc, n) ==
-    {{}} \cup (IF n >= 1 THEN {{<<p[1], p[2], kd>>} : p \in Pos(nr, nc), kd \in SpecialKinds} ELSE {})
-         \cup (IF n >= 2 THEN UNION {{{<<p[1], p[2], kd>>, <<q[1], q[2], ke>>} :
-                                         q \in Later(nr, nc, p), kd \in SpecialKinds, ke \in SpecialKinds} : p \in Pos(nr, nc)}
-                         ELSE {})
+    {<<>>} \cup (IF n >= 1 THEN {<<<<p[1], p[2], kd>>>> : p \in Pos(nr, nc), kd \in SpecialKinds} ELSE {})
+           \cup (IF n >= 2 THEN UNION {{<<<<p[1], p[2], kd>>, <<q[1], q[2], ke>>>> :
+                                           q \in Later(nr, nc, p), kd \in SpecialKinds, ke \in SpecialKinds} : p \in Pos(nr, nc)}
+                           ELSE {})
 Merges(nr, nc) == {<<r, c, rs, cs>> : r \in 1..nr, c \in 1..nc, rs \in 1..2, cs \in 1..2} 
 MergesFit(nr, nc) == {m \in Merges(nr, nc) : m[3] * m[4] > 1 /\ m[1] + m[3] - 1 <= nr /\ m[2] + m[4] - 1 <= nc}
 
-KindOf(sp, r, c) == IF \E x \in sp : x[1] = r /\ x[2] = c THEN (CHOOSE x \in sp : x[1] = r /\ x[2] = c)[3] ELSE "plain"
+KindOf(sp, r, c) == IF \E n \in 1..Len(sp) : sp[n][1] = r /\ sp[n][2] = c
+                    THEN sp[CHOOSE n \in 1..Len(sp) : sp[n][1] = r /\ sp[n][2] = c][3] ELSE "plain"
 
 \* <<"T", nr, nc, hdr, specials, merge>>       merge = <<0,0,1,1>>: none
 Shapes == (1..3) \X (1..3)
 CasesTOk == UNION {{<<"T", sh[1], sh[2], h, sp, <<0, 0, 1, 1>>>> : h \in BOOLEAN, sp \in Specials(sh[1], sh[2], MaxSpecial)} : sh \in Shapes}
 CasesTM == UNION {{<<"T", sh[1], sh[2], h, sp, m>> : h \in BOOLEAN, sp \in Specials(sh[1], sh[2], 1), m \in MergesFit(sh[1], sh[2])} : sh \in Shapes}
 \* full alphabet on small tables: <<"F", nr, nc, hdr, kinds as a function>>
-CasesF == UNION {{<<"F", sh[1], sh[2], h, kd>> : h \in BOOLEAN, kd \in [Pos(sh[1], sh[2]) -> CellKinds]} :
+CasesF == UNION {{<<"F", sh[1], sh[2], h, kd>> : h \in BOOLEAN, kd \in [1..sh[1] -> [1..sh[2] -> CellKinds]]} :
                    sh \in {x \in Shapes : x[1] * x[2] <= FullCells}}
 
 TableOf(d) ==
     IF d[1] = "T"
     THEN [nr |-> d[2], nc |-> d[3], hdr |-> d[4], kind |-> [r \in 1..d[2] |-> [c \in 1..d[3] |-> KindOf(d[5], r, c)]],
           m |-> [r |-> d[6][1], c |-> d[6][2], rs |-> d[6][3], cs |-> d[6][4]]]
-    ELSE [nr |-> d[2], nc |-> d[3], hdr |-> d[4], kind |-> [r \in 1..d[2] |-> [c \in 1..d[3] |-> d[5][<<r, c>>]]], m |-> NoMerge]
+    ELSE [nr |-> d[2], nc |-> d[3], hdr |-> d[4], kind |-> d[5], m |-> NoMerge]
 
 \* ---------------------------------------------------------------- headings
 CasesH == {<<"H", lv, off, mx>> : lv \in 1..9, off \in -2..7, mx \in 1..6}
@@ -66,6 +68,8 @@ McExpand(d) ==
 
 AllCases == CasesTOk \cup CasesTM \cup CasesF \cup CasesH \cup CasesLOk \cup CasesD
 TableCases == CasesTOk \cup CasesTM
+\* the negative controls only need small tables
+ImplCases == {x \in TableCases : x[2] <= 2 /\ x[3] <= 2}
 
 \* ---------------------------------------------------------------- emission
 Repeat(s, n) == FoldLeft(LAMBDA a, b : a \o s, "", [x \in 1..n |-> x])
